@@ -175,11 +175,11 @@ class Ctx:
                     open(dst, "w").write(src)
         cfg = cfg or (module + ".cfg")
         meta = tempfile.mkdtemp(prefix="meta-", dir=self.scratch)
-        jopts = ["-XX:+UseParallelGC", "-Xmx" + heap, "-Xss512m"]
+        jopts = ["-XX:+UseParallelGC", "-XX:ParallelGCThreads=4", "-Xmx" + heap, "-Xss512m"]
         if dfs:
             jopts.append("-Dtlc2.tool.queue.IStateQueue=StateDeque")
         cmd = ["java"] + jopts + ["-cp", TLA_CP, "tlc2.TLC", "-metadir", meta, "-config", cfg,
-                                   "-workers", str(workers or "auto"), "-seed", str(self.seed), "-noGenerateSpecTE"]
+                                   "-workers", str(workers or 8), "-seed", str(self.seed), "-noGenerateSpecTE"]
         if simulate:
             cmd += ["-simulate", simulate]
         if depth:
